@@ -262,6 +262,18 @@ def r5(ctx):
                                     r3 = fn.blocks[d3[1]][0][d3[2]][2]
                                     if r3[0] == "bin" and (r3[1].startswith("Div") or r3[1].startswith("Shr")):
                                         early = fn.where(dd[1])
+            # the same through checked_mul / saturating_mul / wrapping_mul
+            for bb, cc in fl.calls_in_slice(drecs):
+                if L.is_call_to(cc, ["checked_mul", "saturating_mul", "wrapping_mul", "overflowing_mul"]):
+                    for o in fn.blocks[bb][1][2]:
+                        s2, d2 = fl.back_slice(FL.op_locals(o))
+                        if any(L.is_call_to(c3, ["div_ceil", "next_multiple_of"]) for _, c3 in fl.calls_in_slice(d2)):
+                            early = fn.where(bb)
+                        for d3 in d2:
+                            if d3[0] == "stmt":
+                                r3 = fn.blocks[d3[1]][0][d3[2]][2]
+                                if r3[0] == "bin" and (r3[1].startswith("Div") or r3[1].startswith("Shr")):
+                                    early = fn.where(bb)
             if early:
                 ctx.violation("R5", "%s:stride-rounds-after-product" % callee, "the pixel stride given to %s multiplies a value that was "
                               "already rounded up to whole bytes: for packed samples (BitsPerComponent 1/2/4 with several components) "
